@@ -192,3 +192,15 @@ Print Assumptions C18_scanner_overlong.
 Print Assumptions C18_too_long.
 Print Assumptions C18_too_long_exact.
 Print Assumptions C18_limit_success_means_complete.
+(* EBU STL, strengthened after the fuel audit (notes/fuel.md, Proofs/FuelStl.v): the error of a failing stream / of an
+   end-of-file inside a block is a genuine one, never the out-of-fuel value Err EOther of the fuelled loop (which the
+   weaker statements C18_read_stl_fault / C18_read_stl_partial_block above would also accept) *)
+From Astisub Require Import Proofs.FuelStl.
+Theorem C18_read_stl_fault_genuine : forall ign data k counts,
+  exists e, read_stl_fail_at ign data k counts = Err e /\ e <> EOther.
+Proof. intros ign data k counts. exact (read_stl_fail_err_genuine ign (firstn k data) counts). Qed.
+Theorem C18_read_stl_partial_block_genuine : forall ign data j r,
+  length data = (1024 + 128 * j + r)%nat -> (0 < r < 128)%nat -> exists k, read_stl ign data = Err k /\ k <> EOther.
+Proof. exact read_stl_partial_block_genuine. Qed.
+Print Assumptions C18_read_stl_fault_genuine.
+Print Assumptions C18_read_stl_partial_block_genuine.
